@@ -486,4 +486,72 @@ theorem go_no_panic (b : SBuf) (ls : List Ser) (k : PanicKind) :
     · exact ih _
     · simp
 
+/-! ## serializeLayersObs: what a serializer can observe, and what an error leaves behind -/
+
+theorem layers_after_ser (b : SBuf) (l : Ser) :
+    (step (step b (.prepend (l.hdr (contents b)))) (.push l.typ)).layers = b.layers ++ [l.typ] := by
+  rw [layers_step, layers_step]; rfl
+
+/-- The observable loop agrees with the plain one on the result. -/
+theorem goObs_agrees (b : SBuf) (obs : List (List Int)) (xs : List Ser) :
+    (match serializeLayersObs.go b obs xs with
+     | (.ok (), b', _) => Res.ok b'
+     | (.err e, _, _) => .err e
+     | (.panic k, _, _) => .panic k) = serializeLayers.go b xs := by
+  induction xs generalizing b obs with
+  | nil => rfl
+  | cons l rest ih =>
+    by_cases hok : l.ok (contents b) = true
+    · simp only [serializeLayersObs.go, serializeLayers.go, hok, if_true]
+      exact ih _ _
+    · simp [serializeLayersObs.go, serializeLayers.go, hok]
+
+/-- `n` = number of serializers that ran successfully.  Every serializer that was called (the first
+    `min (n+1) |xs|` of them) found exactly the types of the serializers before it recorded; the buffer
+    that is left has exactly the `n` successful ones recorded; the result is ok iff all ran. -/
+theorem goObs_spec (xs done : List Ser) (b : SBuf) (obs : List (List Int))
+    (hb : b.layers = done.map (·.typ)) :
+    ∃ n, n ≤ xs.length ∧
+      (serializeLayersObs.go b obs xs).2.2 = obs ++ (List.range (min (n + 1) xs.length)).map
+          (fun i => ((done ++ xs).take (done.length + i)).map (·.typ)) ∧
+      (serializeLayersObs.go b obs xs).2.1.layers = ((done ++ xs).take (done.length + n)).map (·.typ) ∧
+      ((serializeLayersObs.go b obs xs).1 = .ok () ↔ n = xs.length) := by
+  induction xs generalizing done b obs with
+  | nil =>
+    refine ⟨0, Nat.le_refl _, ?_, ?_, ?_⟩
+    · simp [serializeLayersObs.go]
+    · simp [serializeLayersObs.go, hb]
+    · simp [serializeLayersObs.go]
+  | cons l rest ih =>
+    by_cases hok : l.ok (contents b) = true
+    · have hb' : (step (step b (.prepend (l.hdr (contents b)))) (.push l.typ)).layers
+          = (done ++ [l]).map (·.typ) := by
+        rw [layers_after_ser, hb]; simp
+      obtain ⟨n, hn, h1, h2, h3⟩ := ih (done ++ [l]) _ (obs ++ [b.layers]) hb'
+      refine ⟨n + 1, by simp; omega, ?_, ?_, ?_⟩
+      · simp only [serializeLayersObs.go, hok, if_true]
+        rw [h1]
+        have hm : min (n + 1 + 1) (l :: rest).length = min (n + 1) rest.length + 1 := by
+          simp only [List.length_cons]; omega
+        rw [hm, List.range_succ_eq_map, List.map_cons, List.map_map]
+        simp only [List.append_assoc, List.singleton_append, Nat.add_zero]
+        congr 1
+        congr 1
+        · rw [hb]; simp
+        · apply List.map_congr_left
+          intro i _
+          simp only [Function.comp, List.length_append, List.length_singleton, List.append_assoc,
+            List.singleton_append]
+          rw [show done.length + 1 + i = done.length + Nat.succ i by omega]
+      · simp only [serializeLayersObs.go, hok, if_true]
+        rw [h2]
+        simp only [List.length_append, List.length_singleton, List.append_assoc, List.singleton_append]
+        rw [show done.length + 1 + n = done.length + (n + 1) by omega]
+      · simp only [serializeLayersObs.go, hok, if_true, List.length_cons]
+        rw [h3]; omega
+    · refine ⟨0, Nat.zero_le _, ?_, ?_, ?_⟩
+      · simp [serializeLayersObs.go, hok, hb]
+      · simp [serializeLayersObs.go, hok, hb]
+      · simp [serializeLayersObs.go, hok]
+
 end Gp.C18
